@@ -28,6 +28,13 @@ Definition img_tx (s : st) : images :=   (* the tx log as the OS has it, everyth
   mkImg (os_view (txl s)) (durable (cml s)) (map durable (vls s)) (durable (ahd s)) (durable (ahc s)).
 Definition img_txcm (s : st) : images := (* tx and commit log as the OS has them *)
   mkImg (os_view (txl s)) (os_view (cml s)) (map durable (vls s)) (durable (ahd s)) (durable (ahc s)).
+Definition img_os (s : st) : images :=   (* every file as the OS has it (process kill) *)
+  mkImg (os_view (txl s)) (os_view (cml s)) (map os_view (vls s)) (os_view (ahd s)) (os_view (ahc s)).
+Lemma Forall2_os l : Forall2 crash_image l (map os_view l).
+Proof. induction l; simpl; constructor; auto. apply crash_image_os. Qed.
+Lemma crash_os s : crash s (img_os s).
+Proof. unfold crash, img_os; cbn [i_txl i_cml i_vls i_ahd i_ahc].
+  repeat split; try apply crash_image_os. apply Forall2_os. Qed.
 Lemma crash_dur s : crash s (img_dur s).
 Proof. unfold crash, img_dur; cbn [i_txl i_cml i_vls i_ahd i_ahc].
   repeat split; try apply crash_image_durable. apply Forall2_durable. Qed.
@@ -41,25 +48,6 @@ Proof. unfold crash, img_txcm; cbn [i_txl i_cml i_vls i_ahd i_ahc].
 Definition get (r : res st) (d : st) : st := match r with Ok a => a | _ => d end.
 
 (* ---- what a reader checks ---- *)
-(* the values of committed transaction k can be read and hash to the digest in its record *)
-Definition values_readable (s : st) (k : N) : bool :=
-  match tx_at (lview (txl s)) (lview (cml s)) k with
-  | Some raw =>
-      match parse_rec Hh raw with
-      | Some (_, _, body, _) =>
-          match body_vref body with
-          | Some (v, vo, vn, hv) =>
-              match nth_error (vls s) (N.to_nat v) with
-              | Some f => (vo + vn <=? len (lview f)) && list_eqb_N (Hh (slice (lview f) vo vn)) hv
-              | None => false
-              end
-          | None => false
-          end
-      | None => false
-      end
-  | None => false
-  end.
-
 (* leaf k of the hash tree is the Alh of transaction k (committed: through the commit log;
    precommitted: from the commit buffer) *)
 Definition alh_of_tx (s : st) (k : N) : bytes :=
@@ -73,41 +61,33 @@ Fixpoint tree_matches_upto (s : st) (n : nat) : bool :=
   end.
 Definition tree_matches (s : st) : bool := tree_matches_upto s (N.to_nat (asize s)).
 
-(* ============ A: a reloaded precommitted transaction is committed without its values ============ *)
-Definition cfA := mkCfg 4 4 false 0.
+(* ============ A (FIXED by ccd70f3): a precommitted record without its values is not reloaded ============ *)
+Definition cfA := mkCfg 4 4 false 0 false.
 Definition sA0 := init Hh cfA 1.
 (* a committer appends its values and precommits; the tx-log buffer reaches the OS (buffer full /
-   write-back), the value-log buffer does not; crash *)
+   write-back), the value-log buffer does not; crash.  Before the fix recovery reloaded the record
+   and the syncer committed a transaction whose values were nowhere. *)
 Definition opsA := [OVal 0 [1; 2; 3]; OPre 0 [9; 9]; OFlush FTx 1000].
 Definition sA1 := get (run Hh sA0 opsA) sA0.
 Definition imA := img_tx sA1.
 Definition sA2 := get (recover Hh cfA imA) sA0.
-(* the store's syncer commits what recovery reloaded *)
-Definition sA3 := get (run Hh sA2 [OSyncStart; OSyncV; OSyncTx; OSyncC]) sA0.
-
 Lemma runA : run Hh sA0 opsA = Ok sA1. Proof. vm_compute. reflexivity. Qed.
 Lemma recA : recover_upto Hh (N.to_nat (len (i_txl imA))) cfA imA = Ok sA2. Proof. vm_compute. reflexivity. Qed.
-Lemma runA2 : run Hh sA2 [OSyncStart; OSyncV; OSyncTx; OSyncC] = Ok sA3. Proof. vm_compute. reflexivity. Qed.
-
 Lemma crashA : crash sA1 imA.
 Proof. exact (crash_tx sA1). Qed.
 
-Theorem values_refuted :
-  exists (c : cfg) (nv : nat) (s : st),
-    c_prealloc c = false /\ reach Hh c nv s /\ phase_ s = PIdle /\
-    1 <= acked s /\ committed s = 1 /\ values_readable s 1 = false /\
-    (* the value log is EMPTY while the committed record refers to 3 bytes of it *)
-    map (fun f => len (lview f)) (vls s) = [0].
+(* the record IS in the tx-log image, and is discarded: nothing reloaded, nothing committed *)
+Example scenario_A_discarded :
+  reach Hh cfA 1 sA2 /\ len (i_txl imA) = 123 /\ committed sA2 = 0 /\ precommitted sA2 = 0 /\ pts sA2 = 0.
 Proof.
-  exists cfA, 1%nat, sA3. split; [reflexivity|]. split.
-  - exact (reach_run cfA 1 sA2 _ sA3
-             (r_crash Hh cfA 1 sA1 imA (N.to_nat (len (i_txl imA))) sA2
-                (reach_run cfA 1 sA0 opsA sA1 (r_init Hh cfA 1) runA) crashA recA) runA2).
+  split.
+  - exact (r_crash Hh cfA 1 sA1 imA (N.to_nat (len (i_txl imA))) sA2
+             (reach_run cfA 1 sA0 opsA sA1 (r_init Hh cfA 1) runA) crashA recA).
   - vm_compute. repeat split; congruence.
 Qed.
 
 (* ============ B: the hash tree keeps a leaf of a LOST transaction and is taken as up to date ============ *)
-Definition cfB := mkCfg 2 4 false 0.
+Definition cfB := mkCfg 2 4 false 0 false.
 Definition sB0 := init Hh cfB 1.
 (* two transactions are precommitted: the tree reaches its own sync threshold (2) and fsyncs its
    logs; the tx log is still in its write buffer; crash: both transactions are lost, the tree is not *)
@@ -115,10 +95,10 @@ Definition opsB1 := [OVal 0 [1]; OPre 0 [7]; OVal 0 [2]; OPre 0 [8]].
 Definition sB1 := get (run Hh sB0 opsB1) sB0.
 Definition imB1 := img_dur sB1.
 Definition sB2 := get (recover Hh cfB imB1) sB0.
-(* recovery lowered the tree's size IN MEMORY (ResetSize).  A new transaction 1' is committed
+(* recovery lowered the tree's size (to the committed id, fix 2077e08) IN MEMORY only (ResetSize).  A new transaction 1' is committed
    durably (values, tx log, commit log fsynced; acknowledged); the tree holds it in its buffers
    (threshold not reached).  Second crash. *)
-Definition opsB2 := [OVal 0 [3]; OPre 0 [5]; OSyncStart; OSyncV; OSyncTx; OSyncC].
+Definition opsB2 := [OVal 0 [3]; OPre 0 [5]; OSyncStart; OSyncV 0; OSyncTx; OSyncC].
 Definition sB3 := get (run Hh sB2 opsB2) sB0.
 Definition imB2 := img_dur sB3.
 Definition sB4 := get (recover Hh cfB imB2) sB0.
@@ -143,23 +123,36 @@ Proof. exact (r_crash Hh cfB 1 sB3 imB2 (N.to_nat (len (i_txl imB2))) sB4 reachB
 
 Theorem tree_refuted :
   exists (c : cfg) (nv : nat) (s : st),
-    c_prealloc c = false /\ reach Hh c nv s /\ phase_ s = PIdle /\
+    c_prealloc c = false /\ c_ahtsync c = false /\ reach Hh c nv s /\ phase_ s = PIdle /\
     committed s = 1 /\ acked s = 1 /\
     asize s = precommitted s /\     (* "binary-linking up to date" *)
     tree_matches s = false.         (* but leaf 1 is the Alh of the transaction that was lost *)
 Proof.
-  exists cfB, 1%nat, sB4. split; [reflexivity|]. split.
+  exists cfB, 1%nat, sB4. split; [reflexivity|]. split; [reflexivity|]. split.
   - exact reachB4.
   - vm_compute. repeat split; congruence.
 Qed.
 
+(* the SAME trace and crash images on the code with the proposed repair (the tree is fsynced by
+   sync() before the commit entries are written): the recovered tree matches *)
+Definition cfB' := mkCfg 2 4 false 0 true.
+Definition sB1' := get (run Hh (init Hh cfB' 1) opsB1) (init Hh cfB' 1).
+Definition sB2' := get (recover Hh cfB' (img_dur sB1')) (init Hh cfB' 1).
+Definition sB3' := get (run Hh sB2' opsB2) (init Hh cfB' 1).
+Definition sB4' := get (recover Hh cfB' (img_dur sB3')) (init Hh cfB' 1).
+Example scenario_B_repaired :
+  is_ok (run Hh (init Hh cfB' 1) opsB1) = true /\ is_ok (recover Hh cfB' (img_dur sB1')) = true /\
+  is_ok (run Hh sB2' opsB2) = true /\ is_ok (recover Hh cfB' (img_dur sB3')) = true /\
+  committed sB4' = 1 /\ asize sB4' = precommitted sB4' /\ tree_matches sB4' = true.
+Proof. vm_compute. repeat split; congruence. Qed.
+
 (* ============ C: PreallocFiles — a partially written commit-log entry stops recovery ============ *)
-Definition cfC := mkCfg 4 4 true 440.
+Definition cfC := mkCfg 4 4 true 440 false.
 Definition sC0 := init Hh cfC 1.
 (* one transaction goes through sync() up to the commit-log append; 20 of the 44 bytes of its entry
    reach the disk (write buffer flushed in the middle of the entry, or torn write); crash.
    The transaction was NOT acknowledged. *)
-Definition opsC := [OVal 0 [1]; OPre 0 [7]; OSyncStart; OSyncV; OSyncTx; OFlush FCm 20].
+Definition opsC := [OVal 0 [1]; OPre 0 [7]; OSyncStart; OSyncV 0; OSyncTx; OFlush FCm 20].
 Definition sC1 := get (run Hh sC0 opsC) sC0.
 Definition imC := img_txcm sC1.
 Lemma runC : run Hh sC0 opsC = Ok sC1. Proof. vm_compute. reflexivity. Qed.
@@ -177,7 +170,7 @@ Proof.
 Qed.
 
 (* the same image without PreallocFiles recovers (the partial entry is trimmed) *)
-Definition cfC' := mkCfg 4 4 false 0.
+Definition cfC' := mkCfg 4 4 false 0 false.
 Definition sC1' := get (run Hh (init Hh cfC' 1) opsC) (init Hh cfC' 1).
 Definition imC' := img_txcm sC1'.
 Example no_prealloc_recovers : is_ok (recover Hh cfC' imC') = true.
